@@ -5,7 +5,8 @@
    The theorems cover the transaction kinds of the reduced model (register /
    update / cancel producer, v1 delegate votes and their cancellation, deposit
    top-up and return, pending -> active after 6 confirmations, deposit release
-   after the lock-up, last-block time, the irreversibility bookkeeping).  All
+   after the lock-up, last-block time, RevertToPOW / RevertToDPOS and the switch
+   back to DPOS (consensus mode), the irreversibility bookkeeping).  All
    other kinds are covered by the differential oracle of harness/cmd/c21 on
    the real code only (level: partial). *)
 From Coq Require Import ZArith NArith List Bool.
